@@ -69,7 +69,11 @@ ensures
                         head=INNER_INV % dict(ctor="Node::Chance(*chance)", kids="chance.outcomes"),
                         body_start=BODY_START,
                         body_end="""proof {
-    lemma_qsum_push(qb, (next, fmul(*prob, reach)), c);
+    // (the pushed entry is referred to as `queue@.last()`, not by its float expression, so that a
+    // harmless reordering of the operands of `prob * reach` does not disturb the proof)
+    assert(queue@ =~= qb.push(queue@.last()));
+    assert(queue@.last().0 == next && rv(queue@.last().1) == rv(*prob) * rv(reach));
+    lemma_qsum_push(qb, queue@.last(), c);
     lemma_dist(rv(reach), sum_kids(*node, c, k), rv(*prob), ev(*next, c));
 }"""),
                 2: dict(kind="for", binder="it",
@@ -80,7 +84,9 @@ ensures
     let w = rv(*prob); let r = rv(reach); let e = ev(*next, c);
     lemma_dist(r, sum_kids(*node, c, k), w, e);
     if w > 0real {
-        lemma_qsum_push(qb, (next, fmul(*prob, reach)), c);
+        assert(queue@ =~= qb.push(queue@.last()));
+        assert(queue@.last().0 == next && rv(queue@.last().1) == w * r);
+        lemma_qsum_push(qb, queue@.last(), c);
     } else {
         assert((w * r) * e == 0real) by(nonlinear_arith) requires w == 0real;
         assert(w * e == 0real) by(nonlinear_arith) requires w == 0real;
